@@ -114,4 +114,42 @@ CaseOK ==
         /\ \E i \in 1 .. Len(Lhs.r) :
              ~IsUnres(Lhs.r[i]) /\ Lhs.r[i].v.t \notin {"str", "list", "map", "bool"})
 
+---------------------------------------------------------------------------
+\* C15: variables are transparent - the clause with its literal right-hand side, a prefix of
+\* its query or its query right-hand side bound to a let variable (file scope and rule scope)
+\* gets the status of the clause itself
+Var(n) == [p |-> "var", n |-> n]
+ProgLets(c, flets, rlets) ==
+  [lets |-> flets, prules |-> <<>>, rules |-> <<[n |-> "r", w |-> <<>>, lets |-> rlets, b |-> <<<<c>>>>]>>]
+StatusOf(prog) == LET d == Denote(prog, Docs[di], {}) IN IF d.kind = "err" THEN "ERR" ELSE d.rules[1][2]
+
+AbsOK ==
+  phase = "case" =>
+  LET op == OpRhs[oi][1]
+      ri == OpRhs[oi][2]
+      q == Queries[qi]
+      base == StatusOf(Prog(Clause(FALSE, FALSE)))
+      rhs == IF ri = 0 THEN <<>> ELSE <<Rhs[ri]>>
+      viaVar == <<Qr(<<Var("zv")>>)>>
+  IN
+  \* right-hand side (literal or query) through a variable
+  /\ (ri # 0) =>
+        LET c == Gac(q, al, FALSE, op, FALSE, viaVar)
+            l == <<[n |-> "zv", v |-> Rhs[ri]]>> IN
+        /\ StatusOf(ProgLets(c, l, <<>>)) = base
+        /\ StatusOf(ProgLets(c, <<>>, l)) = base
+        \* inner definitions shadow outer ones
+        /\ StatusOf(ProgLets(c, <<[n |-> "zv", v |-> Val(S(<<111>>))]>>, l)) = base
+  \* a prefix of the left-hand query through a variable (the documented exception: the
+  \* emptiness test on a bare variable tests the result set)
+  /\ \A cut \in 1 .. Len(q) :
+        (/\ op # "empty"
+         /\ q[1].p # "this"
+         /\ (cut < Len(q) => q[cut + 1].p \notin {"idx", "filter"})) =>
+        LET c == Gac(<<Var("zv")>> \o SubSeq(q, cut + 1, Len(q)), al, FALSE, op, FALSE, rhs)
+            l == <<[n |-> "zv", v |-> Qr(SubSeq(q, 1, cut))]>> IN
+        /\ StatusOf(ProgLets(c, l, <<>>)) = base
+        /\ StatusOf(ProgLets(c, <<>>, l)) = base
+  \* an unused variable never influences a verdict, even one that could not be evaluated
+  /\ StatusOf(ProgLets(Clause(FALSE, FALSE), <<[n |-> "zu", v |-> Qr(<<Var("nope")>>)]>>, <<>>)) = base
 =============================================================================
